@@ -505,6 +505,7 @@ theorem Tok.repLoop_sim (pg : PGrammar) (am : Atom3) (G : NodeGrammar)
     (uT : Nat → Inp → M → R Val) (uS : Nat → Inp → List Sp → STR)
     (hu : ∀ idx i m, SimG pg am (tokens G) [] (uT idx i m) (uS idx i m.stk)) (min : Nat) (max : Option Nat) :
     ∀ (bT bS idx : Nat) (i : Inp) (m : M) (accT : List Val) (accS : List Token),
+      accT.length = idx →
       (am ≠ .atomic → tokensList G accT.reverse = pruneAtomic pg accS) →
       SimG pg am (tokensList G) [] (repLoop uT min max bT idx i m accT)
         (specTokRepLoop uS min max bS idx i m.stk accS) := by
@@ -512,13 +513,13 @@ theorem Tok.repLoop_sim (pg : PGrammar) (am : Atom3) (G : NodeGrammar)
   induction bT with
   | zero => intros; exact SimG.oof_left _
   | succ bT ih =>
-    intro bS idx i m accT accS hacc
+    intro bS idx i m accT accS hlen hacc
     cases bS with
     | zero => exact SimG.oof_right _
     | succ bS =>
       unfold repLoop specTokRepLoop
       by_cases hmax : max = some idx
-      · simp only [hmax, if_true]
+      · simp only [hmax, if_true, repDone_some, hlen]
         split
         · exact SimG.fail_fail _
         · exact SimG.ok_ok.mpr ⟨rfl, rfl, fun ha => by simpa using hacc ha⟩
@@ -535,7 +536,8 @@ theorem Tok.repLoop_sim (pg : PGrammar) (am : Atom3) (G : NodeGrammar)
             simp only [restoreOnNone]
             split
             · exact SimG.fail_fail _
-            · exact SimG.ok_ok.mpr ⟨rfl, rfl, fun ha => by simpa using hacc ha⟩
+            · rw [repDone_of_le min max i _ accT (by omega)]
+              exact SimG.ok_ok.mpr ⟨rfl, rfl, fun ha => by simpa using hacc ha⟩
         | ok i' m' v =>
           rw [hp] at h
           cases hs : uS idx i m.stk with
@@ -546,7 +548,8 @@ theorem Tok.repLoop_sim (pg : PGrammar) (am : Atom3) (G : NodeGrammar)
             obtain ⟨h1, h2, h3⟩ := SimG.ok_ok.mp h
             subst h1 h2
             simp only [restoreOnNone]
-            refine ih bS (idx+1) i' m' (v :: accT) (accS ++ ts) (fun ha => ?_)
+            refine ih bS (idx+1) i' m' (v :: accT) (accS ++ ts)
+              (by simp only [List.length_cons, hlen]) (fun ha => ?_)
             rw [List.reverse_cons, tokensList_append, tokensList_singleton, hacc ha, h3 ha,
               pruneAtomic_append]
             simp
@@ -803,7 +806,7 @@ theorem Tok.rep_sim (pg : PGrammar) (uni : Uni) (hsf : SkipFree pg) (n : Nat)
     (fun idx i m => repUnit_sim pg am (gen pg) _ _ _ _ (specTok pg uni N) x N
       (skipRuns_noop (gen pg) uni n _ hsf.skipped) (tokens_defaultSkipVal _)
       (fun i m => ih N x hF sk inh am i m) idx i m)
-    min max n N 0 i m [] [] (fun _ => by simp [tokensList, pruneAtomic])
+    min max n N 0 i m [] [] rfl (fun _ => by simp [tokensList, pruneAtomic])
   cases hp : repLoop (repUnitP (parse (gen pg) uni n false (gen pg).skipped)
       (parse (gen pg) uni n inh (genExpr pg sk x)) (defaultSkipVal (gen pg)) (skipCount sk inh))
       min max n 0 i m [] with
